@@ -263,6 +263,7 @@ def run(ctx):
     op_hist = {}
     n_decisions = n_steps = 0
     stale_seen = 0
+    n_cut = 0
     coq_mgr = []
     nontrivial = set()
     for cs, res in zip(mgr_cases, mgr_outs):
@@ -276,7 +277,11 @@ def run(ctx):
         prev_entries = {}
         hops, obs = [], []
         decided_any = False
+        cut_case = False
         for o, st in zip(cs["Ops"], res["Steps"]):
+            if cut_case:
+                n_cut += 1
+                break
             n_steps += 1
             op_hist[o["K"]] = op_hist.get(o["K"], 0) + 1
 
@@ -285,9 +290,12 @@ def run(ctx):
                     latest[x["Id"]] = x["L"]
                 if x["K"] == "setprocessed":
                     processed[x["Id"]] = x["N"]
-                if x["K"] in ("touch", "resume", "register"):
-                    # the activity the actor has reported to the manager (markActivity -> Touch, or read by
-                    # Register / Resume); stamps never go back in these sequences
+                if x["K"] in ("touch", "register"):
+                    # the activity the manager has been told about: a Touch attempt (markActivity -> Touch; the
+                    # manager must honour it at once or, if the entry is paused / popped / re-registered, when
+                    # it next recomputes the deadline) or the reading Register itself makes.  Resume is NOT a
+                    # report: on an entry that is not paused it reads nothing.  Stamps never go back in these
+                    # sequences, so every later recomputation sees at least this value.
                     reported[x["Id"]] = latest.get(x["Id"], 0)
                 if x["K"] == "register":
                     timeouts[x["Id"]] = x["T"] if x["S"] == 0 else None
@@ -321,12 +329,21 @@ def run(ctx):
                         else:
                             rep, tmo = decision_reported.get(pid_idx, 0), decision_timeouts.get(pid_idx)
                             if rep and tmo and (OFFSET - rep) + 30 * SEC < tmo - TOUCH:
-                                viol("trigger:activity-reported-to-the-manager-ignored", "manager case %d: passivate called for participant %d (timeout %.0f s) although the activity it last reported to the manager (Touch / Resume / Register) is only %.0f s old; deadline in use: %.0f s ago" %
+                                viol("trigger:activity-reported-to-the-manager-ignored", "manager case %d: passivate called for participant %d (timeout %.0f s) although the activity it last reported to the manager (Touch / Register) is only %.0f s old; deadline in use: %.0f s ago" %
                                      (cs["Id"], pid_idx, tmo / SEC, (OFFSET - rep) / SEC, (OFFSET - e["Deadline"]) / SEC), {"case": cs, "op": o, "before": e, "reported_activity_age_s": (OFFSET - rep) / SEC})
                 elif o["K"] == "process":
                     if e is None or e["Paused"]:
                         viol("processMessageEntry:decision-without-eligible-entry", "manager case %d: passivate called for participant %d whose entry before the call was %s" % (cs["Id"], pid_idx, e),
                              {"case": cs, "op": o, "before": e})
+                    elif e["Strat"] == 0:
+                        # the same defect, entry re-registered in place as TIME-based: the stale message-count trigger
+                        # passivates it and (when the attempt succeeds) drops it from the map while its slot stays in the
+                        # deadline heap.  The model has no such dangling slot: the rest of the case is outside its validity.
+                        stale_seen += 1
+                        cut_case = True
+                        if stale_seen == 1:
+                            viol(SIG_STALE, "manager case %d: a message-count trigger queued before the entry was re-registered (now time based) still leads to a passivation attempt" % cs["Id"],
+                                 {"case": cs, "op": o, "before": e})
                     elif e["Strat"] == 1 and not e["Pending"]:
                         # the threshold was not reached for the current registration
                         stale_seen += 1
@@ -526,7 +543,7 @@ Eval vm_compute in summary.
         "samples": [mgr_cases[1], mgr_cases[len(corpus)] if len(mgr_cases) > len(corpus) else mgr_cases[0], mark_cases[0]],
         "manager_steps": n_steps, "manager_decisions": n_decisions, "op_histogram": op_hist, "mark_steps": n_marks,
         "guard_combinations": len(guard_outs), "guard_combinations_passivated": n_guard_pass, "live": live_stats,
-        "stale_trigger_findings": stale_seen, "turn_stamp_findings": turn_findings, "model_vs_implementation": coq_stats,
+        "stale_trigger_findings": stale_seen, "cases_cut_after_stale_trigger_on_time_based_entry": n_cut, "turn_stamp_findings": turn_findings, "model_vs_implementation": coq_stats,
         "theorems": ["C12_no_early_passivation", "C12_no_early_passivation_handled", "C12_no_early_passivation_handled_refuted", "C12_resume_refreshes", "C12_count_threshold_partial",
                      "C12_count_threshold_refuted", "C12_long_lived_never_scheduled", "C12_entries_have_a_passivating_strategy", "C12_try_passivation_guards", "C12_invariant"],
     })
